@@ -152,8 +152,9 @@ class MinPathCover(pathmodel.AbstractPathModelDAG):
         self.model = None
         
         self.solve_statistics = {}
-        self.optimization_options = optimization_options
-        self.solver_options = solver_options
+        self.optimization_options = optimization_options if optimization_options is not None else {}
+        # None stands for the default (no option given), as in the k-models
+        self.solver_options = solver_options if solver_options is not None else {}
         self.time_limit = self.solver_options.get("time_limit", sw.SolverWrapper.time_limit)
         self.solve_time_start = None
 
